@@ -567,12 +567,17 @@ func (f FilterCCITTFax) Encode(v Version, w io.WriteCloser) (io.WriteCloser, err
 	if err := f.validate(v); err != nil {
 		return nil, err
 	}
-	ww, err := ccittfax.NewWriter(w, f.toParams())
+	params := f.toParams()
+	ww, err := ccittfax.NewWriter(w, params)
 	if err != nil {
 		return nil, err
 	}
+	// Decode stops at the geometric cap of a valid image (see there); rows
+	// beyond it would be lost on reading, so they are refused on writing.
+	geoMax := max(1, min(limits.MaxImageHeight, limits.MaxImagePixels/params.Columns))
+	rowBytes := (int64(params.Columns) + 7) / 8
 	return &withClose{
-		Writer: ww,
+		Writer: &ccittRowCap{w: ww, remaining: int64(geoMax) * rowBytes, rows: geoMax},
 		close: func() error {
 			err := ww.Close()
 			if err != nil {
@@ -609,6 +614,27 @@ func (f FilterCCITTFax) Decode(_ Version, r io.Reader, budget *membudget.Budget)
 		return asMalformedFilter(nil, err)
 	}
 	return asMalformedFilter(io.NopCloser(reader), nil)
+}
+
+// ccittRowCap refuses image data beyond the row cap of [FilterCCITTFax.Decode].
+type ccittRowCap struct {
+	w         io.Writer
+	remaining int64
+	rows      int
+}
+
+func (c *ccittRowCap) Write(p []byte) (int, error) {
+	if int64(len(p)) > c.remaining {
+		n, err := c.w.Write(p[:c.remaining])
+		c.remaining -= int64(n)
+		if err == nil {
+			err = fmt.Errorf("CCITTFax image has more than %d rows", c.rows)
+		}
+		return n, err
+	}
+	n, err := c.w.Write(p)
+	c.remaining -= int64(n)
+	return n, err
 }
 
 func (f FilterCCITTFax) validate(_ Version) error {
